@@ -206,6 +206,8 @@ def work(rep, args):
                 "checker_cmd": "tlc Render.tla (exhaustive + -simulate); tlc RenderTrace.tla on recorded traces",
             }
         )
+        from checks import pipe_phase
+        pipe_phase.run_phase(rep, args)
         rep.assumptions += [
             "handler exceptions range over Exception subclasses (a handler raising CancelledError/BaseException is the application cancelling itself)",
             "requests carrying No-Response are judged by C10, not counted here",
